@@ -116,6 +116,11 @@ func (f *Frame) applyCall(v ssa.Value, c *ssa.CallCommon, callee *ssa.Function, 
 			if pp := externPanicPre(callee, args, u); pp != "" {
 				f.check(st, "extpanic", pp, in, "precondition of "+what)
 			}
+			if u.sweep && tr == nil {
+				// schematic mode: externals are deterministic functions of their arguments
+				f.abstractCall(v, callee, sig, st, args)
+				return
+			}
 			f.havocCall(v, sig, st, false, tr, args)
 		} else {
 			u.inexact = true
@@ -1000,7 +1005,7 @@ func (f *Frame) enterLoop(b *ssa.BasicBlock, ls *loopState, preds []*ssa.BasicBl
 		}
 		u.assume(ncur, t)
 	}
-	if f.top {
+	if f.top && !u.sweep {
 		o := u.oblige(fmt.Sprintf("loop%d.cover", ord), f.fname, "true", ncur, "", "loop head reachable under invariant")
 		o.Cover = true
 	}
